@@ -324,9 +324,11 @@ static void ProcessFile(char const* FileName, LongWord Offset) {
                         fprintf(TargFile, "S0030000FC\n");
                         ChkIO(TargName);
                     }
-                    if ((ErgStop >> 24) != 0) {
+                    /* ErgStart is relative/relocated here, ErgStop is not:
+                       take the last address that will be written */
+                    if (((ErgStart + (ErgLen / Gran) - 1) >> 24) != 0) {
                         MotRecType = 2;
-                    } else if ((ErgStop >> 16) != 0) {
+                    } else if (((ErgStart + (ErgLen / Gran) - 1) >> 16) != 0) {
                         MotRecType = 1;
                     } else {
                         MotRecType = 0;
